@@ -13,7 +13,7 @@ func init() { register("C20", c20) }
 
 func c20(c *Ctx) {
 	p, r := c.K1(), c.R
-	r.Expl = "Structural clauses behind 'executable stub space is never handed out twice or outside its reserve': in the fallback (bump-pointer) allocator the base of the returned region is computed from the result of the atomic reservation, never from an earlier load of the cursor; the success return is dominated by new<=max; failure returns carry a non-nil error and no region; the primary path maps R|W|X anonymous memory of the requested length; the fallback is entered only when the primary failed; the writer dispatches on the region's kind consistently with how Acquire tags it; allocator errors are consumed by all callers. Kernel-side disjointness of mmap regions is not decided."
+	r.Expl = "Structural clauses behind 'executable stub space is never handed out twice or outside its reserve': in the fallback (bump-pointer) allocator the base of the returned region is computed from the atomic reservation (the result of an atomic add, or the loaded value that a successful compare-and-swap replaced by itself plus the size), never from another load of the cursor, and the cursor is never stored or swapped back; the success return is dominated by new<=max; failure returns carry a non-nil error and no region; the primary path maps R|W|X anonymous memory of the requested length; the fallback is entered only when the primary failed; the writer dispatches on the region's kind consistently with how Acquire tags it; allocator errors are consumed by all callers. Kernel-side disjointness of mmap regions is not decided."
 	r.RuleText = "one obligation per (rule, function / return / call site)"
 	r.Floor("C20.R1", 2)
 	r.Floor("C20.R2", 2)
